@@ -61,6 +61,11 @@ type c01Bad struct {
 
 // c01Process confirms, reduces and keys one failing case; returns nil when it could not be confirmed.
 func c01Process(ctx *Ctx, res *Result, b c01Bad, reduce bool) *Violation {
+	return c01ProcessN(ctx, res, b, reduce, 0)
+}
+
+// measured = number of measurements of the same case that were already taken and agree (probes)
+func c01ProcessN(ctx *Ctx, res *Result, b c01Bad, reduce bool, measured int) *Violation {
 	c, v := b.c, b.v
 	wd := c01Timeout(ctx, c)
 	same := func(x c01Verdict) bool { return x.Kind == v.Kind && x.Site == v.Site }
@@ -72,7 +77,7 @@ func c01Process(ctx *Ctx, res *Result, b c01Bad, reduce bool) *Violation {
 		if v.Kind == "hang" {
 			n = 2
 		}
-		for i := 0; i < n; i++ {
+		for i := measured; i < n; i++ {
 			x := c01Judge(c01RunCase(ctx, c, wd), c.Spec.Size())
 			if x.Kind != "time" && x.Kind != "hang" {
 				res.Count("unconfirmed."+v.Kind, 1)
@@ -95,16 +100,19 @@ func c01Process(ctx *Ctx, res *Result, b c01Bad, reduce bool) *Violation {
 		switch v.Kind {
 		case "hang":
 			// CPU-bound: still running after 2 s of CPU; blocked: no exit within 20 s while using no CPU
-			rd.budget = 200
+			rd.budget = 600
 			rd.test = func(n *c01Case) bool {
-				x := c01RunCaseOnce(ctx, n, 20*time.Second, 2)
+				x := c01RunCaseOnce(ctx, n, 60*time.Second, 2)
 				return x.TimedOut && (x.Signal == "cpu-limit" || x.CPU < 200*time.Millisecond)
 			}
 		case "time":
-			rd.budget = 128
+			// the CPU limit makes a failing candidate cheap: a candidate passes when it is
+			// still running at its own envelope (or ended above it)
+			rd.budget = 600
 			rd.test = func(n *c01Case) bool {
-				x := c01Judge(c01RunCase(ctx, n, wd), n.Spec.Size())
-				return x.Kind == "time" || x.Kind == "hang"
+				lim := c01CPULimit(n.Spec.Size())
+				x := c01RunCaseOnce(ctx, n, 30*wd, int(lim/time.Second))
+				return (x.TimedOut && x.Signal == "cpu-limit") || (!x.TimedOut && x.Exit >= 0 && x.CPU >= lim)
 			}
 		default:
 			rd.budget = 1500
@@ -171,20 +179,24 @@ func c01Nest(open, mod, tail, cl string, n int) string {
 func c01Probes() []c01Probe {
 	rep := strings.Repeat
 	mkNest := func(name, mod, tail string) c01Probe {
-		return c01Probe{name: "nested-" + name, n0: 5, gen: func(n int) string { return "X=\t" + c01Nest("${", mod, tail, "}", n) + "\n" }}
+		n0 := 4 // the variants stay below the floor at 4n = 16; "nested-modifier" (n0 = 5) is the one that re-finds DESIGN 8-3
+		if name == "modifier" {
+			n0 = 5
+		}
+		return c01Probe{name: "nested-" + name, n0: n0, gen: func(n int) string { return "X=\t" + c01Nest("${", mod, tail, "}", n) + "\n" }}
 	}
 	ps := []c01Probe{
 		mkNest("modifier", "x", ""), mkNest("M", "M", ""), mkNest("U", "U", ""), mkNest("S", "S,a,", ","), mkNest("at", "@v@", "@"), mkNest("bang", "!echo ", "!"), mkNest("index", "[", "]"),
-		{name: "nested-paren", n0: 5, gen: func(n int) string { return "X=\t" + c01Nest("$(", "x", "", ")", n) + "\n" }},
-		{name: "nested-varname", n0: 5, gen: func(n int) string {
+		{name: "nested-paren", n0: 4, gen: func(n int) string { return "X=\t" + c01Nest("$(", "x", "", ")", n) + "\n" }},
+		{name: "nested-varname", n0: 4, gen: func(n int) string {
 			s := "x"
 			for i := 0; i < n; i++ {
 				s = "${A." + s + "}"
 			}
 			return "X=\t" + s + "\n"
 		}},
-		{name: "nested-cond", n0: 5, gen: func(n int) string { return ".if " + c01Nest("${", "M", "", "}", n) + "\n.endif\n" }},
-		{name: "nested-shell", n0: 5, gen: func(n int) string { return "do-install:\n\techo " + c01Nest("${", "x", "", "}", n) + "\n" }},
+		{name: "nested-cond", n0: 4, gen: func(n int) string { return ".if " + c01Nest("${", "M", "", "}", n) + "\n.endif\n" }},
+		{name: "nested-shell", n0: 4, gen: func(n int) string { return "do-install:\n\techo " + c01Nest("${", "x", "", "}", n) + "\n" }},
 		{name: "continuation-chain", n0: 500, gen: func(n int) string { return "X=\t\\\n" + rep("\tx \\\n", n) + "\ty\n" }},
 		{name: "continuation-empty", n0: 500, gen: func(n int) string { return "X=\t\\\n" + rep("\\\n", n) + "\n" }},
 		{name: "directives-seq", n0: 250, gen: func(n int) string { return rep(".if ${A}\n.endif\n", n) }},
@@ -388,7 +400,7 @@ func c01RunProbes(ctx *Ctx, res *Result) {
 			if rw.out[2] {
 				v.Kind = "hang"
 			}
-			if viol := c01Process(ctx, res, c01Bad{rw.c[2], v, rw.r[2]}, false); viol != nil {
+			if viol := c01ProcessN(ctx, res, c01Bad{rw.c[2], v, rw.r[2]}, false, 1); viol != nil {
 				viol.Replay["probe"] = ps[i].name
 				res.AddViolation(*viol)
 			}
@@ -551,7 +563,7 @@ func c01RunStreams(ctx *Ctx, res *Result) {
 
 func runC01(ctx *Ctx) *Result {
 	res := &Result{Rule: "whole runs: one per generated tree x option subset (valid, hostile and malformed stream of the tree generator, plus 3 sizes of every scaling-probe family); distinct = distinct by (content of all non-fixture entries, argv, cwd); every tree carries at least one generated feature, so all distinct runs are non-trivial. " +
-		"unit: all sequences of <=L directive lines over the 9-symbol alphabet (both with and without a pkgsrc tree) and all SeparatorWriter event sequences of <=6 events over 8 events are compared with the extracted model"}
+		"unit: all sequences of <=5 (thorough 6) directive lines over a 9-symbol alphabet (with and without a pkgsrc tree), all of length 6 (7) over its 7 core symbols, random longer ones over 37 symbols, and all SeparatorWriter event sequences of <=6 events over 8 events are compared with the extracted model"}
 	defer c01ScratchCleanup()
 	t0 := time.Now()
 	c01UnitIndent(ctx, res)
